@@ -469,6 +469,55 @@ func ruleR055(c *Ctx) {
 					continue
 				}
 			}
+			// panic(g.pan): a field that only ever receives recovered values (g.pan = rec with rec := recover()) in the package
+			if sel, ok := ast.Unparen(ps.call.Args[0]).(*ast.SelectorExpr); ok {
+				if fld, ok := info.ObjectOf(sel.Sel).(*types.Var); ok && fld.IsField() {
+					nStores, allRecovered := 0, true
+					if pp := c.PkgOf(ps.call); pp != nil {
+						pinfo := pp.TypesInfo
+						for _, f := range pp.Syntax {
+							ast.Inspect(f, func(x ast.Node) bool {
+								as, ok := x.(*ast.AssignStmt)
+								if !ok || len(as.Lhs) != len(as.Rhs) {
+									return true
+								}
+								for i, l := range as.Lhs {
+									ls, ok := ast.Unparen(l).(*ast.SelectorExpr)
+									if !ok || pinfo.ObjectOf(ls.Sel) != fld {
+										continue
+									}
+									nStores++
+									fromRecover := false
+									switch r := ast.Unparen(as.Rhs[i]).(type) {
+									case *ast.CallExpr:
+										if rid, ok := ast.Unparen(r.Fun).(*ast.Ident); ok && rid.Name == "recover" {
+											fromRecover = true
+										}
+									case *ast.Ident:
+										if encl := c.EnclosingDecl(as); encl != nil {
+											if ras, ri := definingAssign(pinfo, encl, pinfo.ObjectOf(r)); ras != nil && len(ras.Rhs) == len(ras.Lhs) {
+												if rc, ok := ast.Unparen(ras.Rhs[ri]).(*ast.CallExpr); ok {
+													if r2, ok := ast.Unparen(rc.Fun).(*ast.Ident); ok && r2.Name == "recover" {
+														fromRecover = true
+													}
+												}
+											}
+										}
+									}
+									if !fromRecover {
+										allRecovered = false
+									}
+								}
+								return true
+							})
+						}
+					}
+					if nStores > 0 && allRecovered {
+						c.OK(key, ps.call.Pos(), "re-raise of a recovered panic value kept in the field %s on the calling goroutine", fld.Name())
+						continue
+					}
+				}
+			}
 		}
 		// (b) the arg package protocol: panics with pError inside helpers that are only called under defer CatchErr
 		if ps.pkg.PkgPath == modPath+"/value/arg" {
@@ -811,6 +860,53 @@ func ruleR059(c *Ctx) {
 			}
 			return true
 		})
+		// the try child kept in a field of a small struct whose methods are the generated code:
+		// tryCatchEval{tryFunc: tryFunc, ...}; every call of that field in the package evaluates the try expression
+		tryFields := map[types.Object]bool{}
+		ast.Inspect(gi.decl.Body, func(x ast.Node) bool {
+			kv, ok := x.(*ast.KeyValueExpr)
+			if !ok {
+				return true
+			}
+			kid, ok := kv.Key.(*ast.Ident)
+			if !ok {
+				return true
+			}
+			isTryVal := false
+			if obj := gi.childObj(info, kv.Value); obj != nil && gi.field[obj] == "TryCatch.Try" {
+				isTryVal = true
+			}
+			if id, ok := ast.Unparen(kv.Value).(*ast.Ident); ok && tryAlias[info.ObjectOf(id)] {
+				isTryVal = true
+			}
+			if fld, ok := info.ObjectOf(kid).(*types.Var); ok && fld.IsField() && isTryVal {
+				tryFields[fld] = true
+			}
+			return true
+		})
+		if len(tryFields) > 0 {
+			for _, f := range gi.pkg.Syntax {
+				ast.Inspect(f, func(x ast.Node) bool {
+					call, ok := x.(*ast.CallExpr)
+					if !ok {
+						return true
+					}
+					sel, ok := ast.Unparen(call.Fun).(*ast.SelectorExpr)
+					if !ok || !tryFields[info.ObjectOf(sel.Sel)] {
+						return true
+					}
+					n++
+					key := fmt.Sprintf("%s#try-evaluation[%d]", gname, n)
+					body := c.enclosingBody(call)
+					if body != nil && c.startsWithRecoveringDefer(gi.pkg, body) {
+						c.OK(key, call.Pos(), "the try expression (kept in the field %s) is evaluated under a deferred function that calls recover()", sel.Sel.Name)
+					} else {
+						c.Violation(key, call.Pos(), "the try expression (kept in the field %s) is evaluated without a recover: a fault raised as a Go panic (recursion guard, host function) can not be handled by try/catch", sel.Sel.Name)
+					}
+					return true
+				})
+			}
+		}
 		ast.Inspect(gi.decl.Body, func(x ast.Node) bool {
 			call, ok := x.(*ast.CallExpr)
 			if !ok {
